@@ -21,6 +21,7 @@ type tncConn struct {
 	ctrlOut  chan<- string
 	dataOut  chan<- []byte
 	dataIn   <-chan []byte
+	unread   []byte // Remainder of a received frame that did not fit the caller's buffer
 	eofChan  chan struct{}
 	ctrlIn   broadcaster
 	isTCP    bool
@@ -53,20 +54,19 @@ func (conn *tncConn) Read(p []byte) (int, error) {
 		return 0, nil
 	}
 
-	data, ok := <-conn.dataIn
-	if !ok {
-		return 0, io.EOF
+	// Serve what is left of the previous frame before taking the next one
+	if len(conn.unread) == 0 {
+		data, ok := <-conn.dataIn
+		if !ok {
+			return 0, io.EOF
+		}
+		conn.unread = data
 	}
 
-	if len(data) > len(p) {
-		panic("too large") // TODO: Handle
-	}
+	n := copy(p, conn.unread)
+	conn.unread = conn.unread[n:]
 
-	for i, b := range data {
-		p[i] = b
-	}
-
-	return len(data), nil
+	return n, nil
 }
 
 func (conn *tncConn) Write(p []byte) (int, error) {
